@@ -13,7 +13,7 @@ vars == <<l, T, side, pid, tainted, nviol, cnt>>
 
 Bump(c, ks) == [k \in DOMAIN c \cup ks |-> (IF k \in DOMAIN c THEN c[k] ELSE 0) + (IF k \in ks THEN 1 ELSE 0)]
 
-Init == /\ l = 1 /\ T = [k |-> "gone", limit |-> 0] /\ side = "buf" /\ pid = -1 /\ tainted = FALSE /\ nviol = 0
+Init == /\ l = 1 /\ T = [k |-> "gone", limit |-> 0] /\ side = "buf" /\ pid = -1 /\ tainted = {} /\ nviol = 0
         /\ cnt = [x \in {} |-> 0]
 
 Next ==
@@ -21,14 +21,15 @@ Next ==
   /\ LET e == Rec[l]
          R == IF e.op = "reset" THEN [V |-> {}]
               ELSE IF side = "buf" THEN BufStep(T, e) ELSE MutStep(T, e)
-         report == ~tainted /\ R.V # {}
+         newV == {v \in R.V : v[1] \notin tainted}     \* first violation per property and program
+         report == newV # {}
      IN /\ T' = e.tree
         /\ side' = IF e.op = "reset" THEN e.side ELSE side
         /\ pid' = IF e.op = "reset" THEN e.pid ELSE pid
-        /\ tainted' = IF e.op = "reset" THEN FALSE ELSE (tainted \/ R.V # {})
+        /\ tainted' = IF e.op = "reset" THEN {} ELSE (tainted \cup {v[1] : v \in R.V})
         /\ nviol' = nviol + (IF report THEN 1 ELSE 0)
         /\ cnt' = Bump(cnt, {e.op} \cup (IF e.op = "reset" THEN {} ELSE {e.out}))
-        /\ (report => PrintT(<<"LAWVIOL", pid, e.i, e.op, R.V>>))
+        /\ (report => PrintT(<<"LAWVIOL", pid, e.i, e.op, newV>>))
         /\ (l = Len(Rec) => PrintT(<<"DONE", Len(Rec), nviol', cnt'>>))
   /\ l' = l + 1
 =============================================================================
